@@ -39,7 +39,9 @@
 (* reads of uninitialised bindings (TDZ), more than one import() per run   *)
 (* (completion order of independent jobs), require() of an ES module that  *)
 (* is in a cycle with / already linked by an import (Node throws           *)
-(* ERR_REQUIRE_CYCLE_MODULE, a host restriction), CommonJS modules whose   *)
+(* ERR_REQUIRE_CYCLE_MODULE, a host restriction), a CommonJS module that   *)
+(* threw being loaded again (the require cache forgets it, the ESM module  *)
+(* map does not), CommonJS modules whose                                   *)
 (* statically detected names differ from the keys of module.exports when   *)
 (* a namespace of them is observed, CommonJS exports changed after the     *)
 (* snapshot.  Such runs end with excl # "" and are not exported.           *)
@@ -53,6 +55,8 @@ CONSTANTS N,           \* maximal number of modules
           EsmOps,      \* statement alphabet of ES modules (subset of AllEsmOps)
           CjsOps,      \* statement alphabet of CommonJS modules (subset of AllCjsOps)
           Names,       \* names of exported variables, subset of {"x","y","z"}
+          MinLen,      \* minimal number of statements of a module (1; larger to bias -simulate towards big graphs)
+          Guided,      \* BOOLEAN: generation satisfies pending imports first (for -simulate: fewer dead ends)
           Emit         \* BOOLEAN: print a CASE record for every finished run
 
 AllEsmOps == {"probe", "let", "set", "fn", "call", "rd", "rns", "imp", "def", "rex", "star", "dyn", "throw"}
@@ -170,6 +174,7 @@ Compatible(op, x, tk) ==
 \* local (incremental) well-formedness of the statement s appended to body b of kind k
 LocalOK(k, b, s) ==
   /\ (b # <<>> => b[Len(b)].op # "throw")          \* nothing after a throw (dead code)
+  /\ (s.op = "dyn" => ~HasOpAny(b, "dyn") /\ \A m \in 1..Len(bodies) : ~HasOpAny(bodies[m], "dyn"))   \* one import() per graph
   /\ IF k = "esm"
      THEN CASE s.op = "let" -> ~ExportsName(b, s.x)
             [] s.op = "set" -> HasOp(b, "let", s.x)
@@ -238,18 +243,70 @@ Init ==
   /\ cur = <<>>
   /\ rs = InitRun
 
+\* Partial resolution while the graph is being built: modules above nc are not
+\* finished yet, what they will export is unknown.  Used only to cut off
+\* prefixes that can no longer become a graph that links (sound pruning).
+UnkR == [k |-> "unk", m |-> 0, x |-> ""]
+RECURSIVE PRes(_, _, _, _)
+PRes(m, x, seen, nc) ==
+  IF m > nc THEN UnkR
+  ELSE IF <<m, x>> \in seen THEN NoneR
+  ELSE IF Kind(m) = "cjs"
+       THEN IF x = "default" \/ x \in LexNames(m) THEN [k |-> "cjs", m |-> m, x |-> x] ELSE NoneR
+  ELSE IF Kind(m) = "json"
+       THEN IF x = "default" THEN [k |-> "json", m |-> m, x |-> x] ELSE NoneR
+  ELSE LET B == Body(m)
+           seen2 == seen \cup {<<m, x>>}
+           rex == {i \in DOMAIN B : B[i].op = "rex" /\ B[i].x = x}
+       IN IF HasLocal(m, x) THEN [k |-> "esm", m |-> m, x |-> x]
+          ELSE IF rex # {} THEN PRes(B[CHOOSE i \in rex : TRUE].t, x, seen2, nc)
+          ELSE IF x = "default" THEN NoneR
+          ELSE LET stars == {B[i].t : i \in {j \in DOMAIN B : B[j].op = "star"}}
+                   found == {PRes(t, x, seen2, nc) : t \in stars} \ {NoneR}
+               IN IF found = {} THEN NoneR
+                  ELSE IF UnkR \in found THEN UnkR
+                  ELSE IF Cardinality(found) = 1 THEN CHOOSE r \in found : TRUE
+                  ELSE AmbR
+
+\* the import/re-export s can still link when modules 1..nc are finished
+MayLink(s, nc) ==
+  CASE s.op \in {"rd", "rex"} -> PRes(s.t, s.x, {}, nc).k \notin {"none", "amb"}
+    [] s.op = "call" -> PRes(s.t, "f", {}, nc).k \in {"esm", "unk"}
+    [] OTHER -> TRUE
+
+\* names that finished modules (and the body under construction) import from
+\* module GM and that GM does not export yet
+Needed ==
+  LET wants == UNION {{IF Body(m)[i].op = "call" THEN "f" ELSE Body(m)[i].x :
+                        i \in {j \in Idx(m) : Body(m)[j].op \in {"rd", "rex", "call"} /\ Body(m)[j].t = GM /\ (m # GM \/ Body(m)[j].op # "rex")}} :
+                      m \in 1..GM}
+  IN {x \in wants : PRes(GM, x, {}, GM).k = "none"}
+
+\* Guided generation (simulation): a statement that exports a needed name
+Provides(s, need) ==
+  \/ s.op \in {"let", "xset", "mexp", "rex"} /\ s.x \in need
+  \/ s.op = "def" /\ "default" \in need
+  \/ s.op = "fn" /\ "f" \in need
+  \/ s.op = "let" /\ "f" \in need /\ ~HasOpAny(cur, "let")
+  \/ s.op = "star" /\ need \cap Names # {}
+
 GenAdd ==
   /\ phase = "gen" /\ Len(cur) < K
   /\ \E s \in Shapes(IF Kind(GM) = "esm" THEN EsmOps ELSE CjsOps) :
        /\ LocalOK(Kind(GM), cur, s)
+       /\ (Guided /\ Needed # {}) => Provides(s, Needed)
        /\ IF s.t = NM + 1
           THEN \E k \in Kinds : Compatible(s.op, s.x, k) /\ kinds' = Append(kinds, k)
-          ELSE (s.t # 0 => Compatible(s.op, s.x, Kind(s.t))) /\ kinds' = kinds
+          ELSE /\ (s.t # 0 => Compatible(s.op, s.x, Kind(s.t)))
+               /\ (s.t # 0 /\ s.t <= Len(bodies)) => MayLink(s, Len(bodies))
+               /\ kinds' = kinds
        /\ cur' = Append(cur, s)
   /\ UNCHANGED <<phase, bodies, rs>>
 
 GenClose ==
   /\ phase = "gen" /\ cur # <<>>
+  /\ Len(cur) >= MinLen \/ cur[Len(cur)].op = "throw"
+  /\ \A m \in 1..GM : \A i \in Idx(m) : MayLink(Body(m)[i], GM)
   /\ LET bs == SkipData(Append(bodies, cur)) IN
        /\ bodies' = bs
        /\ cur' = <<>>
@@ -335,6 +392,9 @@ Push(r, t) ==
                    !.esStack = Append(@, t),
                    !.stack = Append(@, [m |-> t, ph |-> "deps", i |-> 1])]
     [] Kind(t) = "cjs" ->
+         \* a CommonJS module whose body threw: whether it runs again depends on
+         \* which loader loaded it first (require cache vs ESM module map): not generated
+         IF r.unwound[t] > 0 THEN Exclude(r, "cjs-rerun") ELSE
          [r EXCEPT !.st[t] = "evaluating", !.runs[t] = @ + 1, !.cx[t] = EmptyCx, !.repl[t] = FALSE,
                    !.stack = Append(@, [m |-> t, ph |-> "body", i |-> 1])]
     [] OTHER -> [r EXCEPT !.st[t] = "evaluated"]
@@ -393,8 +453,13 @@ ExecEsm(r, f, s) ==
 
 \* require(t) of an ES module that has not been loaded: allowed when nothing
 \* in its static closure is being evaluated or was linked by an import job
+\* (ERR_REQUIRE_CYCLE_MODULE otherwise), and no CommonJS module it imports is
+\* still loading ("Cannot import CommonJS Module in a cycle")
+CjsDeps(c) == {Requested(c)[i] : i \in {j \in DOMAIN Requested(c) : Kind(Requested(c)[j]) = "cjs"}}
 ReqEsmOK(r, t) ==
-  \A c \in Closure(t) : r.st[c] \in {"evaluated", "errored"} \/ (r.st[c] = "new" /\ c \notin r.linked)
+  \A c \in Closure(t) :
+    /\ r.st[c] \in {"evaluated", "errored"} \/ (r.st[c] = "new" /\ c \notin r.linked)
+    /\ \A d \in CjsDeps(c) : r.st[d] # "evaluating"
 
 ExecCjs(r, f, s) ==
   LET id == Id(f.m, f.i) IN
@@ -511,6 +576,7 @@ Finish ==
   /\ GuardFinish
   /\ phase' = "done"
   /\ (Emit /\ rs.excl = "" /\ (rs.threw \/ NsExcl(EntrySnap, 1) \in {"", "cjs-lexer"})) => PrintT(<<"CASE", ToJson(CaseRec)>>)
+  /\ (Emit /\ rs.excl # "") => PrintT(<<"EXCL", rs.excl>>)
   /\ UNCHANGED <<kinds, bodies, cur, rs>>
 
 Next == GenAdd \/ GenClose \/ Start \/ EvalDep \/ RunStmt \/ Pop \/ MainEnd \/ DynEnd \/ Finish
@@ -529,9 +595,8 @@ TypeOK ==
   /\ \A i \in DOMAIN rs.stack : rs.stack[i].m \in 1..NM /\ rs.stack[i].ph \in {"deps", "body"}
   /\ rs.job \in {"start", "main", "dyn", "fin"}
 
-\* every module body runs at most once (a CommonJS body abandoned by an error
-\* is removed from the require cache and may be run again by a later job)
-BodyAtMostOnce == \A m \in Mods : rs.runs[m] <= 1 + rs.unwound[m]
+\* every module body runs at most once
+BodyAtMostOnce == \A m \in Mods : rs.runs[m] <= 1
 EsmBodyOnce == \A m \in 1..NM : Kind(m) = "esm" => rs.runs[m] <= 1
 
 \* a module that is being evaluated is never entered again
